@@ -20,7 +20,7 @@ tf = "/verif/measured_thorough.json"
 extra = ""
 if os.path.exists(tf):
     t = json.load(open(tf))
-    extra = "\n\nThorough tier, last full pass (%s):\n\n| id | paths | solver queries | wall | exit |\n|---|---|---|---|---|\n" % t.get("when", "")
+    extra = "\n\nThorough tier, last full pass (%s; the rows of C02, C04, C06, C12, C14, C15 and C16 are from the re-run after the last\nharness additions, made while other checks were running on the machine, so their wall times are on the high side):\n\n| id | paths | solver queries | wall | exit |\n|---|---|---|---|---|\n" % t.get("when", "")
     for p, r in sorted(t["runs"].items()):
         extra += "| %s | %s | %s | %s | %s |\n" % (p, r.get("paths"), r.get("queries"), r.get("wall"), r.get("exit"))
 block = "<!-- MEASURED-TABLE -->\n" + "\n".join(rows) + extra.rstrip("\n") + "\n<!-- /MEASURED-TABLE -->"
